@@ -534,7 +534,7 @@ var c09Weights = baseWeights.with(Weights{"payable": 14, "transfer": 16, "nfttra
 	"skv": 0, "gas": 0, "epoch": 0, "changeowner": 0, "claim": 0, "setusername": 0, "freeze": 1, "pause": 1})
 
 func TestC09(t *testing.T) {
-	runHistories(t, historyCfg{prop: "C09", weights: c09Weights, minSteps: 12, maxSteps: 60, nontrivial: func(rec *CallRecord, g *Gen) (string, bool) {
+	runHistories(t, historyCfg{prop: "C09", weights: c09Weights, minSteps: 12, maxSteps: 60, before: c09Sweep, nontrivial: func(rec *CallRecord, g *Gen) (string, bool) {
 		if !transferFns[rec.Call.Fn] {
 			return "", false
 		}
@@ -605,7 +605,8 @@ func TestC11(t *testing.T) {
 var c15Weights = baseWeights.with(Weights{"gas": 0, "epoch": 0})
 
 func TestC15(t *testing.T) {
-	runHistories(t, historyCfg{prop: "C15", weights: c15Weights, minSteps: 100, maxSteps: 300, nontrivial: func(rec *CallRecord, g *Gen) (string, bool) {
+	runHistories(t, historyCfg{prop: "C15", weights: c15Weights, minSteps: 100, maxSteps: 300,
+		before: func(t *testing.T, st *Stats) { c15Enumerate(t, st, EnvInt("VERIF_C15_DEPTH", 3)) }, nontrivial: func(rec *CallRecord, g *Gen) (string, bool) {
 		if !rec.Res.OK() || len(rec.Res.Diff) == 0 {
 			return "", false
 		}
